@@ -93,6 +93,12 @@ class _NoGevent(object):
     return None
 
 
+class _NoTimers(object):
+  @staticmethod
+  def Schedule(deadline, action):
+    return lambda: None
+
+
 class _FakeTime(object):
   def __init__(self):
     self.t = 1024.0
@@ -122,6 +128,8 @@ def setup():
   V.random = rnd
   V.gevent = _NoGevent
   D.time = ftime
+  if hasattr(D, 'GLOBAL_TIMER_QUEUE'):
+    D.GLOBAL_TIMER_QUEUE = _NoTimers        # a call waiting for Open() never times out in these histories
   _S.update(V=V, D=D, clk=clk, rnd=rnd, ftime=ftime, gevent=gevent, MethodReturnMessage=MethodReturnMessage,
             MessageProperties=MessageProperties, SinkProperties=SinkProperties, ClientMessageSink=ClientMessageSink,
             AsyncResult=AsyncResult, metrics0=dict(V.VarzReceiver.VARZ_METRICS),
@@ -148,6 +156,8 @@ def _value(r, kind):
   if kind == 'inc':
     return r.choice([None, 1, 1, 2, 5, -1, 0, 100, 3])
   if kind == 'set':
+    if r.random() < 0.5:
+      return r.choice([5, 3, 3, 5, 7])          # re-sets of earlier values are the norm for gauges
     return r.choice([0, 1, 7, -3, r.randrange(-64, 64) / 8.0, r.randrange(0, 1000)])
   k = r.random()
   if k < 0.5:
@@ -198,7 +208,8 @@ def gen_run(r, big=False, mixed=None):
     v = _value(r, kind)
     j = r.choice(JS + [r.random()])
     if ty in (1, 2, 3, 4, 5, 6) and kind == kind_of_type(ty) and r.random() < 0.5:
-      ops.append(['C', ty, m, src, v, j, r.random() < 0.5])
+      # 0: class-level metric(source, v); 1: a fresh bound object; 2..4: one of three long-lived bound objects
+      ops.append(['C', ty, m, src, v, j, r.choice([0, 1, 2, 3, 4, 2, 3])])
     else:
       ops.append(['L', kind, m, src, v, j])
   ops.append(['D'])
@@ -220,7 +231,7 @@ def gen_reservoir(r, cap, nsrc, n, sel=3):
     v = r.randrange(0, 1024) / 4.0 if cap > 100 else _value(r, 'sample')
     j = r.choice(JS + [r.random()])
     if r.random() < 0.5:
-      ops.append(['C', ty, 0, src, v, j, r.random() < 0.5])
+      ops.append(['C', ty, 0, src, v, j, r.choice([0, 1, 2, 3])])
     else:
       ops.append(['L', 'sample', 0, src, v, j])
     if r.random() < 0.03:
@@ -229,18 +240,38 @@ def gen_reservoir(r, cap, nsrc, n, sel=3):
   return {'kind': 'run', 'cap': cap, 'types': [[0, ty]], 'ops': ops}
 
 
+def gen_objects(r):
+  """Several long-lived Varz / VarzMetric OBJECTS bound to equal sources, interleaved, re-setting earlier values."""
+  ty = r.choice([1, 1, 1, 4, 2])
+  pool = [[None, 0, 0, None]] if r.random() < 0.6 else [[None, 0, 0, None], [0, 0, 1, None]]
+  vals = r.choice([[5, 3], [5, 3, 7], [0, 1], [2.5, 5]])
+  ops = []
+  for _ in range(r.choice([3, 5, 8, 14, 20])):
+    src = list(r.choice(pool))
+    v = r.choice(vals)
+    ops.append(['C', ty, 0, src, v, 0.5, r.choice([2, 3, 4, 5, 2, 3, 0, 1])])
+    if r.random() < 0.15:
+      ops.append(['D'])
+  ops += [['D'], ['A', 0], ['A', 2]]
+  return {'kind': 'run', 'cap': 1000, 'types': [[0, ty]], 'ops': ops}
+
+
 def gen_e2e(r):
-  n = r.choice([1, 2, 5, 10, 25, 60])
+  n = r.choice([1, 2, 4, 5, 10, 25, 60])
   calls = []
   for _ in range(n):
     method = r.choice([0, 0, 1, 2])
     k = r.random()
+    timeout = r.choice([None, 5])
     if k < 0.1:
-      calls.append([method, None])
+      calls.append([method, None, timeout])
     else:
       ep = r.choice([None, 0, 0, 1, 2])
-      calls.append([method, [ep, r.random() < 0.5, r.randrange(0, 2048) / 256.0, r.random() < 0.3, r.choice(JS)]])
+      calls.append([method, [ep, r.random() < 0.5, r.randrange(0, 2048) / 256.0, r.random() < 0.3, r.choice(JS)], timeout])
+  # open_after = k: the next sink's Open() result completes only after k calls were issued (None: it is complete at once)
+  open_after = None if r.random() < 0.4 else r.choice([n, r.randrange(0, n + 1), min(n, 2)])
   return {'kind': 'e2e', 'cap': r.choice([2, 3, 5, 1000]), 'service': r.choice([0, 1]), 'ops': calls,
+          'open_after': open_after, 'default_timeout': r.choice([None, 10]),
           'tail': [['D'], ['A', 0], ['A', r.choice([1, 2, 4])]]}
 
 
@@ -282,6 +313,8 @@ def gen_cases(tier, seed):
   for i in range(1 if quick else 3):          # the production capacity, past the point where it is full
     r = C.case_rng(seed, PID + 'big', i)
     out.append(gen_reservoir(r, 1000, 1, 1030))
+  for i in range(80 if quick else 600):
+    out.append(gen_objects(C.case_rng(seed, PID + 'obj', i)))
   for i in range(60 if quick else 400):
     out.append(gen_e2e(C.case_rng(seed, PID + 'e2e', i)))
   for i in range(200 if quick else 1200):
@@ -307,6 +340,8 @@ def search_cases(tier, seed, diverging):
     out.append(gen_reservoir(r, r.choice([1, 2, 3, 5]), r.choice([1, 2, 4]), 60, sel=r.choice([0, 1, 3])))
   for i in range(300):
     out.append(gen_e2e(C.case_rng(seed + 7919, PID + 'e2e', i)))
+  for i in range(300):
+    out.append(gen_objects(C.case_rng(seed + 7919, PID + 'obj', i)))
   for i in range(500):
     out.append(gen_pct(C.case_rng(seed + 7919, PID + 'pct', i)))
   return out
@@ -441,11 +476,28 @@ def _do_tail_op(op):
   raise ValueError(op)
 
 
+def _bound_object(objects, ty, m, src, slot):
+  """A long-lived metric object bound to a (fresh) Source equal to src; one per (type, metric, tuple, slot).
+  Even slots are attributes of a Varz object (a VarzBase subclass instance), odd slots come from ForSource."""
+  V = _S['V']
+  key = (ty, m, tuple(src), slot)
+  if key not in objects:
+    cls = _S['classes'][ty]
+    if slot % 2 == 0:
+      attr = 'm%d' % m
+      varz_cls = type(V.VarzBase)('C18Varz', (V.VarzBase,), {'_VARZ_BASE_NAME': 'c18', '_VARZ': {attr: cls}})
+      objects[key] = getattr(varz_cls(_fresh_source(src)), attr)
+    else:
+      objects[key] = cls(_mname(m), None).ForSource(_fresh_source(src))
+  return objects[key]
+
+
 def _run_ops(case):
   V = _S['V']
   R = V.VarzReceiver
   rnd = _S['rnd']
   obs = []
+  objects = {}
   for op in case['ops']:
     if op[0] == 'K':
       _S['clk'].now = op[1]
@@ -482,7 +534,7 @@ def _run_ops(case):
       metric = _S['classes'][ty](name, None)
       try:
         if bound:
-          b = metric.ForSource(s)
+          b = metric.ForSource(s) if int(bound) == 1 else _bound_object(objects, ty, m, src, int(bound))
           if v is None:
             b()
           else:
@@ -513,7 +565,11 @@ def _run_e2e(case):
   ftime.t = 1024.0
   MRM = _S['MethodReturnMessage']
   EP = _S['MessageProperties'].Endpoint
-  pending = []
+  replies = {}
+  events = []
+  used = {}
+  lat_obs = {}
+  issued_at = {}
 
   class EndpointObj(object):
     def __init__(self, s):
@@ -526,15 +582,17 @@ def _run_e2e(case):
     def __init__(self):
       super(StubSink, self).__init__()
       self.next_sink = None
+      self.open_ar = _S['AsyncResult']()
 
     def Open(self):
-      return _S['AsyncResult'].Complete()
+      return self.open_ar
 
     def Close(self):
       pass
 
     def AsyncProcessRequest(self, sink_stack, msg, stream, headers):
-      reply = pending.pop(0)
+      idx = msg.args[0]
+      reply = replies[idx]
       if reply is None:
         return
       ep, as_obj, lat, is_err, j = reply
@@ -542,32 +600,65 @@ def _run_e2e(case):
         e = _field(2, ep)
         msg.properties[EP] = EndpointObj(e) if as_obj else e
       ftime.t += lat
+      lat_obs[idx] = ftime.t - issued_at[idx]
       rnd.next = j
+      u0 = rnd.used
+      events.append(['r', idx])
       if is_err:
         sink_stack.AsyncProcessResponseMessage(MRM(error=ValueError('stub failure')))
       else:
         sink_stack.AsyncProcessResponseMessage(MRM(return_value=7))
+      used[idx] = rnd.used - u0
 
     def AsyncProcessResponse(self, sink_stack, context, stream, msg):
       raise NotImplementedError()
 
+  sink = StubSink()
+
   class Provider(object):
     def CreateSink(self, properties):
-      return StubSink()
+      return sink
 
   label = _field(1, case['service'])
-  disp = D.MessageDispatcher(object, Provider(), 10, {_S['SinkProperties'].Label: label})
+  disp = D.MessageDispatcher(object, Provider(), case.get('default_timeout', 10), {_S['SinkProperties'].Label: label})
   disp.Open()
+  open_after = case.get('open_after')
+  waiting = []
+
+  def complete_open():
+    # both deferred paths (ContinueWith and on_open) are rawlinks of the Open() result: they run, in the order the
+    # calls were issued, before any of the request greenlets they spawn
+    events.extend(['d', i] for i in waiting)
+    del waiting[:]
+    sink.open_ar.set()
+    for _ in range(3):
+      gevent.sleep(0)
+
+  if open_after is None:
+    complete_open()
+  ars = []
+  for idx, entry in enumerate(case['ops']):
+    method, reply = entry[0], entry[1]
+    timeout = entry[2] if len(entry) > 2 else None
+    if open_after is not None and idx == open_after and not sink.open_ar.ready():
+      complete_open()
+    replies[idx] = reply
+    issued_at[idx] = ftime.t
+    if sink.open_ar.ready():
+      events.append(['d', idx])
+    else:
+      waiting.append(idx)
+    if timeout is None:
+      ars.append(disp.DispatchMethodCall(_field(0, method), (idx,), {}))
+    else:
+      ars.append(disp.DispatchMethodCall(_field(0, method), (idx,), {}, timeout=timeout))
+    gevent.sleep(0)
+    gevent.sleep(0)
+  if not sink.open_ar.ready():
+    complete_open()
   results = []
-  used = []
-  for method, reply in case['ops']:
-    pending.append(reply)
-    u0 = rnd.used
-    ar = disp.DispatchMethodCall(_field(0, method), (), {})
-    gevent.sleep(0)
-    gevent.sleep(0)
-    used.append(rnd.used - u0)
-    if reply is None:
+  for entry, ar in zip(case['ops'], ars):
+    if entry[1] is None:
       results.append('pending' if not ar.ready() else 'done?')
     elif not ar.ready():
       results.append('not-ready')
@@ -577,7 +668,9 @@ def _run_e2e(case):
       results.append(type(ar.exception).__name__)
   tail = [_do_tail_op(op) for op in case['tail']]
   types = sorted([mid, R.VARZ_METRICS.get(name)] for name, mid in E2E_METRICS.items())
-  return {'results': results, 'used': used, 'tail': tail, 'types': types}
+  n = len(case['ops'])
+  return {'results': results, 'used': [used.get(i, 0) for i in range(n)], 'lat': [lat_obs.get(i) for i in range(n)],
+          'events': events, 'tail': tail, 'types': types}
 
 
 def run_impl(case):
@@ -852,7 +945,8 @@ def _monitor_e2e(case, obs):
   svc = case['service']
   want_disp, want_host = {}, {}
   n_ok = n_err = 0
-  for (method, reply), res in zip(case['ops'], obs['results']):
+  for entry, res in zip(case['ops'], obs['results']):
+    method, reply = entry[0], entry[1]
     want_disp[(method, svc, None, None)] = want_disp.get((method, svc, None, None), 0) + 1
     if reply is None:
       continue
@@ -876,6 +970,11 @@ def _monitor_e2e(case, obs):
                   (m, len(tuples), len(case['ops']), len(want))))
       elif set(tuples) != set(want):
         v.append(('e2e-series', 'metric %s has series %r, calls used %r' % (m, sorted(tuples, key=repr), sorted(want, key=repr))))
+    tot = dict((m, sum(c.get('num', 0) for _s, c in d.get(m, []))) for m in (100, 101, 102))
+    if tot[100] != len(case['ops']):
+      v.append(('e2e-counts', 'dispatch_messages adds up to %r after %d calls were issued' % (tot[100], len(case['ops']))))
+    if tot[101] != n_ok or tot[102] != n_err:
+      v.append(('e2e-counts', 'success/exception_messages add up to %r/%r after %d/%d such replies' % (tot[101], tot[102], n_ok, n_err)))
     for t, n in want_disp.items():
       c = dict((tuple(s), c) for s, c in d.get(100, [])).get(t)
       if c is not None and c.get('num') != n and len(d.get(100, [])) == len(want_disp):
@@ -1047,14 +1146,16 @@ def to_coq(case, obs):
         exp.append('(ObStep %s %s)' % (z(0 if o['o'] == 'ok' else EXC_CODE.get(o['o'], 99)), z(o['n'])))
     return 'CRun %s %s %s' % (cfg_lit(case['cap'], case['types'], obs['pcts']), C.lst(ops), C.lst(exp))
   if k == 'e2e':
-    calls = []
-    for (method, reply), used in zip(case['ops'], obs['used']):
-      if reply is None:
-        calls.append('(%s, None)' % z(method))
+    evs = []
+    for what, idx in obs['events']:
+      entry = case['ops'][idx]
+      if what == 'd':
+        evs.append('(EvDispatch %s)' % z(entry[0]))
       else:
-        ep, _as_obj, lat, is_err, j = reply
-        calls.append('(%s, Some (oz %s, %s, %s, %s))' % (z(method), oz(ep), q(lat), C.blit(is_err), _rnd_lit(j, used)))
-    return 'CE2E %s %s %s %s %s' % (cfg_lit(case['cap'], obs['types'], obs['pcts']), z(case['service']), C.lst(calls),
+        ep, _as_obj, _lat, is_err, j = entry[1]
+        evs.append('(EvReply %s (oz %s) %s %s %s)' % (z(entry[0]), oz(ep), q(obs['lat'][idx]), C.blit(is_err),
+                                                     _rnd_lit(j, obs['used'][idx])))
+    return 'CE2E %s %s %s %s %s' % (cfg_lit(case['cap'], obs['types'], obs['pcts']), z(case['service']), C.lst(evs),
                                    C.lst([_tail_op_lit(op) for op in case['tail']]),
                                    C.lst([_tail_obs_lit(o) for o in obs['tail']]))
   if k == 'pct':
